@@ -11,7 +11,8 @@ import subprocess
 ROOT = os.path.dirname(os.path.dirname(os.path.abspath(__file__)))
 CRATE = os.path.join(ROOT, 'replay')
 SEARCHES = {'C01': 'codec_search', 'C02': 'codec_search', 'C03': 'codec_search', 'C04': 'codec_search',
-            'C08': 'block_search', 'C09': 'block_search', 'C10': 'block_search', 'C11': 'block_search', 'C12': 'block_search', 'C14': 'observe_search', 'C15': 'observe_search'}
+            'C08': 'block_search', 'C09': 'block_search', 'C10': 'block_search', 'C11': 'block_search', 'C12': 'block_search', 'C14': 'observe_search', 'C15': 'observe_search',
+            'C06': 'text_search C06', 'C17': 'text_search C17', 'C19': 'text_search C19'}
 
 
 def _crate_for(repo):
@@ -32,7 +33,8 @@ def _run(binary, repo, timeout=600):
     env = dict(os.environ)
     env['CARGO_NET_OFFLINE'] = 'true'
     env['CARGO_TARGET_DIR'] = os.path.join(ROOT, '.build', 'replay-target')
-    cmd = ['cargo', 'run', '--offline', '--release', '--quiet', '--bin', binary]
+    binary, _, arg = binary.partition(' ')
+    cmd = ['cargo', 'run', '--offline', '--release', '--quiet', '--bin', binary] + (['--', arg] if arg else [])
     try:
         p = subprocess.run(cmd, cwd=crate, env=env, capture_output=True, text=True, timeout=timeout)
         out = p.stdout if ('FOUND ' in p.stdout or 'NONE' in p.stdout) else ('ERROR ' + p.stderr[-400:])
